@@ -118,7 +118,7 @@ struct Doc {
 
 /// Seed-independent directed documents for productions that are known to fail
 /// (each one is a recorded finding; the random profile does not draw them).
-const DIRECTED: [(&str, &str, &str); 6] = [
+const DIRECTED: [(&str, &str, &str); 7] = [
     // documents with an empty key are expected to build and type-check: shapes that a
     // random document only contains by chance, present in every run by construction
     (
@@ -135,6 +135,11 @@ const DIRECTED: [(&str, &str, &str); 6] = [
         "triple_collision",
         "",
         "typedef i16 aB\nstruct AB {\n  1: i32 x,\n}\nstruct Ab {\n  1: AB y,\n  2: aB z,\n}\nenum fooBar {\n  A = 1,\n}\nstruct FooBar {\n  1: fooBar f,\n}\nstruct foo_bar {\n  1: FooBar g,\n  2: Foo_Bar h,\n}\ntypedef string Foo_Bar\nconst i32 getURL = 1\nconst i32 get_url = 2\nconst i32 GetUrl = 3\nconst i32 GET_URL = 4\nservice Svc {\n  AB getUrl(1: Ab get_url, 2: aB GetUrl),\n  void get_url(1: foo_bar a),\n  void GetURL(),\n}\n",
+    ),
+    (
+        "annotated_defaults",
+        "",
+        "const string CS = \"v\"\nstruct S {\n  1: string a = CS (pilota.rust_type = \"string\"),\n  2: optional string b = \"lit\" (pilota.rust_type = \"string\"),\n  3: binary c = CS,\n  4: binary d = CS (pilota.rust_type = \"vec\"),\n  5: binary e = \"0123\" (pilota.rust_type = \"vec\"),\n  6: optional binary f = \"xy\",\n  7: string g = CS,\n  8: required string h = CS (pilota.rust_type = \"string\"),\n}\n",
     ),
     (
         "typedef_defaults",
